@@ -310,6 +310,8 @@ fn seeds() -> Vec<Seed> {
         ("no-codespace", "1 beginbfchar\n<0001> <0048>\nendbfchar\n"),
         ("nothing", ""),
         ("one-byte-codes", "1 begincodespacerange\n<00> <FF>\nendcodespacerange\n1 beginbfrange\n<20> <7E> <0020>\nendbfrange\n"),
+        ("adjacent-identical-multiunit", "1 begincodespacerange\n<0000> <FFFF>\nendcodespacerange\n3 beginbfchar\n<0010> <00660069>\n<0011> <00660069>\n<0012> <00660069>\nendbfchar\n2 beginbfrange\n<0014> <0015> [<00410042> <00410042>]\n<0016> <0017> [<00410042> <00410042>]\nendbfrange\n"),
+        ("adjacent-identical-ranges", "1 begincodespacerange\n<0000> <FFFF>\nendcodespacerange\n3 beginbfrange\n<0001> <0004> <D83DDFFC>\n<0005> <0008> <D83DDFFC>\n<0009> <000C> <FFFE>\nendbfrange\n"),
         ("mixed-lengths", "2 begincodespacerange\n<00> <7F>\n<8000> <FFFF>\nendcodespacerange\n2 beginbfchar\n<41> <0041>\n<8141> <4E00>\nendbfchar\n"),
     ] {
         let text = format!("/CIDInit /ProcSet findresource begin\n12 dict begin\nbegincmap\n/CMapName /X def\n/CMapType 2 def\n{}endcmap\nCMapName currentdict /CMap defineresource pop\nend\nend\n", body);
@@ -696,6 +698,39 @@ fn families(thorough: bool) -> Vec<(&'static str, String, Vec<u8>)> {
         // no Index at all: the count comes from Size
         for size in ["3", "300000000", "4294967295", "-5"] {
             v.push(("xrefstm", format!("W{} no Index Size {}", w, size), dict_line(&format!("<</Type/XRef/Size {}/W{}>>", size, w), &data)));
+        }
+    }
+    // encryption dictionary grid: every combination of V, R and Length (and a few O/U lengths) on files whose
+    // empty user password otherwise authenticates - parameter combinations no writer produces but any file may carry
+    {
+        let enc = encrypted_seeds();
+        for tname in ["v2r3-rc4-128-table", "v4r4-rc4-table", "v5r6-aesv3-table"] {
+            let Some((_, tmpl, _)) = enc.iter().find(|(n, _, _)| n == tname) else { continue };
+            let Some(vpos) = tmpl.windows(3).position(|w| w == b"/V ") else { continue };
+            let ppos = tmpl[vpos..].windows(3).position(|w| w == b"/P ").map(|p| p + vpos).unwrap_or(vpos);
+            for vv in 0..=6 {
+                for r in 0..=7 {
+                    for len in ["", "/Length 0", "/Length 7", "/Length 8", "/Length 39", "/Length 40", "/Length 48", "/Length 128", "/Length 129", "/Length 256", "/Length 2048", "/Length -8"] {
+                        let mut f = tmpl[..vpos].to_vec();
+                        f.extend_from_slice(format!("/V {}/R {}{}", vv, r, len).as_bytes());
+                        f.extend_from_slice(&tmpl[ppos..]);
+                        let f = repair_table(&f).unwrap_or(f);
+                        v.push(("load", format!("encrypt grid on {}: V {} R {} {}", tname, vv, r, len), f));
+                    }
+                }
+            }
+            // O / U of unusual lengths
+            for (key, n) in [("O", 0usize), ("O", 31), ("O", 33), ("O", 48), ("U", 0), ("U", 16), ("U", 31), ("U", 33), ("U", 48), ("U", 127)] {
+                let pat = format!("/{} <", key).into_bytes();
+                if let Some(kp) = tmpl.windows(pat.len()).position(|w| w == pat.as_slice()) {
+                    let end = tmpl[kp..].iter().position(|c| *c == b'>').map(|e| e + kp).unwrap_or(kp);
+                    let mut f = tmpl[..kp + pat.len()].to_vec();
+                    f.extend(std::iter::repeat(b"A7").take(n).flatten());
+                    f.extend_from_slice(&tmpl[end..]);
+                    let f = repair_table(&f).unwrap_or(f);
+                    v.push(("load", format!("encrypt grid on {}: {} of {} bytes", tname, key, n), f));
+                }
+            }
         }
     }
     // object streams: N / First extremes, non-numeric index blocks
@@ -1199,7 +1234,7 @@ fn main() {
          and every token-level edit of all seeds (delete / duplicate token, replace by another kind or by deep nesting, every integer by 21 extremes, by offsets, \
          by every other integer of the file, block splices); every mutant of a file with a classic cross-reference table or an unfiltered cross-reference stream additionally in a structure-aware form whose offsets and startxref are re-pointed at the moved objects; 2-edit mutants at token sites of small seeds (thorough); (b) parametric adversarial families \
          (nesting depth, reference and Prev cycles, xref-stream W/Index/Size, object-stream N/First, predictor parameters, all PNG row tags, ASCII85 groups, LZW \
-         code sequences, inline-image geometry, CMap grammar extremes, BOM-alphabet text strings, Length/startxref extremes); nine entry points in isolated workers; \
+         code sequences, inline-image geometry, CMap grammar extremes, encryption-dictionary grid (V x R x Length x O/U lengths on authenticating files), BOM-alphabet text strings, Length/startxref extremes); nine entry points in isolated workers; \
          non-trivial = mutant differs from its seed, is distinct by content hash, and the entry point got past the trivial early error",
     );
     run.assume("budgets: 2 s + 1 s per 64 KiB of input, 8 MiB main-thread stack, rayon's default worker stacks (2 MiB), single allocation request <= 64*len + 16 MiB, RLIMIT_AS 6 GiB; lopdf built with overflow checks");
